@@ -16,11 +16,9 @@ package table_valued_functions
 //@   stream 1 invariant increasing: forall(j, 1, len(OUTM), OUTM[j-1].Watermark.ns < OUTM[j].Watermark.ns)
 //@   stream 1 invariant nofabrication: len(OUT) <= len(IN)
 //@   ensures increasing: forall(j, 1, len(OUTM), OUTM[j-1].Watermark.ns < OUTM[j].Watermark.ns)
-//@   ensures errprop: cbErr != nil ==> result != nil
+//@   ensures errprop: runErr != nil ==> result != nil
 
 // C21 tumble.
-//@ spec lastOut() Record = OUT[len(OUT)-1]
-//@ spec lastIn() Record = IN[len(IN)-1]
 //@ func (*tumble).Run
 //@   stream 1 assumes windowLength.Duration > 0 && offset.Duration > 0 - 4611686018427387904 && offset.Duration < 4611686018427387904
 //@   stream 1 assumes len(IN) > 0 ==> 0 <= t.timeFieldIndex && t.timeFieldIndex < len(lastIn().Values)
@@ -29,4 +27,4 @@ package table_valued_functions
 //@   stream 1 invariant types: len(OUT) > 0 ==> lastOut().Values[len(lastIn().Values)].TypeID == 5 && lastOut().Values[len(lastIn().Values)+1].TypeID == 5
 //@   stream 1 invariant window: len(OUT) > 0 ==> lastOut().Values[len(lastIn().Values)].Time.ns <= lastIn().Values[t.timeFieldIndex].Time.ns && lastIn().Values[t.timeFieldIndex].Time.ns < lastOut().Values[len(lastIn().Values)+1].Time.ns
 //@   stream 1 invariant length: len(OUT) > 0 ==> lastOut().Values[len(lastIn().Values)+1].Time.ns - lastOut().Values[len(lastIn().Values)].Time.ns == windowLength.Duration
-//@   ensures errprop: cbErr != nil ==> result != nil
+//@   ensures errprop: runErr != nil ==> result != nil
